@@ -58,6 +58,13 @@ Names(s) == [i \in 1 .. Len(s) |-> s[i].name]
 ASSUME Names(SchemaOf(11)) = <<"a1", "a2", "b", "c", "d">>
 ASSUME Names(SchemaOf(12)) = <<"a1", "a2", "e">> /\ SchemaOf(12)[1].kind = "bytes" /\ SchemaOf(12)[1].t = N(137)
 ASSUME NumLaws
+\* the life of an instance (TlvModelLife): every change of the enumerated lives is admissible, and the size law holds
+\* for every value the instance goes through
+LifeLaw == \A f \in 1 .. Len(Family) : LET s == SchemaOf(f) IN \A v \in EditAssign(s) :
+             LET ms == LifeOf(s, v) IN
+             /\ LifeOk(s, v, ms)
+             /\ \A j \in 1 .. Len(ms) : LET vj == Lives(s, v, ms)[j] IN SeqSize(Encode(s, vj)) = AnnouncedLength(s, vj)
+ASSUME LifeLaw
 ASSUME \A f \in 1 .. Len(Family) : DistinctTypes(SchemaOf(f))
 
 \* ------------------------------------------------------------------ vacuity witnesses (each must be VIOLATED)
